@@ -173,6 +173,15 @@ def run_exec(root: str, spec: dict[str, Any], roles: dict[str, str], knobs: dict
     if timed_out or isinstance(exc, StepBudgetExceeded):
         out["kind"] = "timeout"
         out["ok"] = False
+        # where was the code when the budget ran out: innermost frames inside the tree under test
+        frames = []
+        tb = exc.__traceback__ if exc is not None else None
+        while tb is not None:
+            co = tb.tb_frame.f_code
+            if "/a816/" in co.co_filename or "/script/" in co.co_filename:
+                frames.append(f"{os.path.basename(co.co_filename)}:{co.co_qualname}")
+            tb = tb.tb_next
+        out["stuck_in"] = frames[-3:]
     elif isinstance(exc, SystemExit):
         out["kind"] = "exit"
         code = exc.code
